@@ -116,6 +116,7 @@ fn main() {
             std::process::exit(2);
         }
     }
+    props::common::check_rejected(&mut rep);
     let n = rep.finish(&out);
     std::process::exit(if n == 0 { 0 } else { 1 });
 }
